@@ -200,7 +200,8 @@ def int_to_chars(I, v, bits=None, signed=True):
         return [ord(c) for c in str(v)]
     bits = v.size()
     # few feasible values: fork on them (cheap concrete formatting) instead of symbolic division by powers of ten
-    vals = I.ctx.values_upto(v, 24)
+    wide = z3.is_const(v) and v.decl().kind() == z3.Z3_OP_UNINTERPRETED and v.decl().name() in getattr(I, 'wide_ints', ())
+    vals = None if wide else I.ctx.values_upto(v, 24)
     if vals is not None:
         for x in vals[:-1]:
             if I.branch(v == z3.BitVecVal(x, bits)):
